@@ -136,7 +136,7 @@ def run():
                 a = noneless(docs.random_doc(r, depth=3))
             b = noneless(docs.mutate(a, r)) if r.random() < 0.8 else a
             if not isinstance(b, (dict, list)):
-                b = [b]
+                b = [b] if b is not None else ["nil"]      # (a plist cannot hold null)
             ca, cb = _cli.serialise(typ, a, "A"), _cli.serialise(typ, b, "B")
         named = r.random() < 0.5
         fa = mats.file(ca, _cli.EXT[typ] if named else ".dat", "la")
@@ -284,6 +284,42 @@ def run():
             chk.violation({"clause": v["clause"], "how": "same-bytes", "types": gm["from"] + ">" + gm["to"]}, {"same_bytes": gm},
                           "the bytes %r given twice (%s) as %s and as %s: '%s' gives %s %s, but '%s' gave %s" % (
                               gm["content"][:60], gm["how"], gm["from"], gm["to"], o["how"], o["v"], o["exc"][-100:], obs[0]["how"], obs[0]["v"]))
+    # ---- (f) what the library refuses, the command refuses (and the other way round): a file the type's loader rejects - a
+    # byte-order mark in front of JSON, truncated documents - is an error for both entry points, not a diff for one of them
+    good = {"json": b'{"a": 2, "b": [1, 3]}', "json5": b"{a: 2, b: [1, 3],}", "yaml": b"a: 2\nb: [1, 3]\n", "xml": b"<r><a>2</a></r>"}
+    refusable = [("json", b"\xef\xbb\xbf" + b'{"a": 1, "b": [1, 2, 3]}', "byte-order mark"), ("json", b'{"a": [1, 2', "truncated"),
+                 ("json", b"\xef\xbb\xbf[1, 2]", "byte-order mark"), ("json5", b"\xef\xbb\xbf{a: 1}", "byte-order mark"),
+                 ("json5", b"{a: [1, 2", "truncated"), ("yaml", b"a: [1, 2\nb: }", "unbalanced"), ("yaml", b"\xef\xbb\xbfa: 1\n", "byte-order mark"),
+                 ("xml", b"<r><a>1</r>", "mismatched tag"), ("xml", b"\xef\xbb\xbf<r><a>1</a></r>", "byte-order mark")]
+    fgroups, fmeta = [], []
+    for typ_, content, what in refusable:
+        for pos in ("from", "to", "both"):
+            fbad = mats.file(content, _cli.EXT[typ_], "r1")
+            fgood = mats.file(good[typ_], _cli.EXT[typ_], "r2")
+            fa, fb = (fbad, fgood) if pos == "from" else (fgood, fbad) if pos == "to" else (fbad, mats.file(content, _cli.EXT[typ_], "r3"))
+            lib = _lib_job({"lib": (fa, fb, typ_, typ_, docs.ALL_OPTS[0], False, False)})
+            key = "refusal|%s|%s|%s" % (typ_, what, pos)
+            for sel in ([], ["--from-%s" % typ_, "--to-%s" % typ_]):
+                rec = _cli.execute([{"argv": [fa, fb, "--no-status", "--no-color"] + sel, "from": fa, "to": fb, "cfg": _cli.base_cfg(),
+                                     "keep_out": True}])[0]
+                cli_refused = (not rec["exc"]) and rec["rc"] not in (0, None) and not (rec.get("out") or "").strip() and \
+                    ("rror" in (rec.get("err") or ""))
+                obs = [{"k": key, "v": "refused" if lib["raised"] else lib["v"], "raised": False, "how": "library", "exc": lib["exc"]},
+                       {"k": key, "v": "refused" if cli_refused else "%s/%s" % (rec["out_digest"], rec["rc"]), "raised": bool(rec["exc"]),
+                        "how": "cli " + " ".join(sel), "exc": rec["exc"]}]
+                fgroups.append(obs)
+                fmeta.append({"type": typ_, "what": what, "position": pos, "content": content.decode("latin-1")})
+    fverdicts, fst = functional.validate_groups(fgroups, name="C14-refusal")
+    chk.add_trace_stats(fst, "FunctionalTrace", sum(len(g) for g in fgroups))
+    for gm, obs, v in zip(fmeta, fgroups, fverdicts):
+        for o in obs:
+            chk.count(("refusal", gm["type"], gm["what"], gm["position"], o["how"]))
+        if v["v"] != "ACCEPT":
+            o = obs[v["step"] - 1]
+            chk.violation({"clause": v["clause"], "how": "refusal", "type": gm["type"], "what": gm["what"]}, {"refusal": gm},
+                          "%s file with a %s (as %s file): '%s' gives %s %s, but '%s' gave %s %s" % (
+                              gm["type"], gm["what"], gm["position"], o["how"], o["v"], o["exc"][-100:], obs[0]["how"], obs[0]["v"],
+                              obs[0]["exc"][-100:]))
     functional.model_check(chk)
     _cli.model_check(chk)
     # the writer between the command and its real standard output while status output is on (L2 model: spec/Status.tla)
